@@ -669,6 +669,7 @@ def context_sample(run, recs, root, n_list):
     os.chdir(root)
     for tname, mk in (("cpu_serial", lambda: xo.ContextCpu()), ("cpu_openmp", lambda: xo.ContextCpu(omp_num_threads=2))):
         ctx = mk()
+        ctx._compile_kernels_info = False
         texts, descs, meta = [MACROS], {}, []
         for k, rec in enumerate(recs):
             text, sid, folder = render(rec, f"s{k}", fixed=True)
@@ -871,6 +872,7 @@ def check(pid, argv=None):
     clause_count = collections.Counter()
     for r, v in zip(sel, rver):
         clause_count[v[0] or "ok"] += 1
+    for r, v in sorted(zip(sel, rver), key=lambda rv: (len(rv[0]["src"]), json.dumps(rv[0]["src"]))):   # smallest witness first
         if v[0]:
             key = classify_key(r, v)
             desc = (f"target {r['t']}: {v[0]} at n={v[1]} block={v[2]} statement={v[3]}; source={json.dumps(r['src'])}; "
